@@ -81,7 +81,7 @@ def fn(a, tier):
 
     def scenario(use_injected):
         log = []
-        orig, injected = build_fn(shape, ann, is_async, name0, log)
+        fns = {}
         out = {}
 
         def provide(ctx_parent, ctx, t, name, state, tag):
@@ -111,6 +111,7 @@ def fn(a, tier):
         async def call():
             args = (1,) if shape != 1 else ()
             try:
+                orig, injected = fns["pair"]
                 if use_injected:
                     r = injected(*args)
                     r = await r if is_async else r
@@ -125,6 +126,9 @@ def fn(a, tier):
 
         async def main():
             async with Context() as parent:
+                # the decorator is applied while ANOTHER context (the parent) is current: the context that
+                # matters is the one current at call time
+                fns["pair"] = build_fn(shape, ann, is_async, name0, log)
                 for st, t, nm, tag in ((s0, T0, name0, "dep0"), (s1, T1, "second", "dep1")):
                     if st == 3:
                         provide(parent, None, t, nm, st, tag)
